@@ -1076,6 +1076,16 @@ API_DELEGATIONS = [
     ("yrs::types::xml::XmlFragment::len", r"Branch::len$", {0: "AsRef::as_ref(self)"}, None),
     ("yrs::types::array::Array::len", r"Branch::len$", {0: "AsRef::as_ref(self)"}, None),
     ("yrs::branch::Branch::insert_at", r"Branch::index_to_ptr$", {1: "self.start", 2: "index"}, None),
+    # preliminary values fill the new type through the type's own methods, element by element
+    ("<yrs::types::array::ArrayPrelim as yrs::block::Prelim>::integrate", r"Array::push_back$", {0: "inner_ref", 1: "txn", 2: ("has", "::next(self.0)")}, None),
+    ("<yrs::types::map::MapPrelim as yrs::block::Prelim>::integrate", r"Map::insert$", {0: "inner_ref", 1: "txn", 2: ("has", "::next(self.0).0"), 3: ("has", "::next(self.0).1")}, None),
+    ("<yrs::types::xml::XmlElementPrelim as yrs::block::Prelim>::integrate", r"Xml::insert_attribute$", {0: "inner_ref", 2: ("has", "::next(self.attributes).0"), 3: ("has", "::next(self.attributes).1")}, None),
+    ("<yrs::types::xml::XmlElementPrelim as yrs::block::Prelim>::integrate", r"XmlFragment::push_back$", {0: "inner_ref", 2: ("has", "::next(self.children)")}, None),
+    ("<yrs::types::xml::XmlFragmentPrelim as yrs::block::Prelim>::integrate", r"XmlFragment::push_back$", {0: "inner_ref", 2: ("has", "::next(self.0)")}, None),
+    ("<yrs::types::text::TextPrelim as yrs::block::Prelim>::integrate", r"Text::push$", {0: "inner_ref", 2: "self.0"}, None),
+    ("<yrs::types::xml::XmlTextPrelim as yrs::block::Prelim>::integrate", r"Text::push$", {0: "inner_ref", 2: "self.0"}, None),
+    ("<yrs::types::text::DeltaPrelim as yrs::block::Prelim>::integrate", r"Text::apply_delta$", {0: "inner_ref", 2: "self.0"}, None),
+    ("<yrs::types::xml::XmlDeltaPrelim as yrs::block::Prelim>::integrate", r"Text::apply_delta$", {0: "inner_ref", 2: "self.delta"}, None),
     # the running attribute set: a mark overwrites the value of its key, a null mark removes the key
     ("yrs::types::text::update_current_attributes", r"HashMap::insert$", {0: "attrs", 1: "key", 2: "value"}, None),
     ("yrs::types::text::update_current_attributes", r"HashMap::remove$", {0: "attrs", 1: "key"}, None),
